@@ -82,6 +82,18 @@ def FNode.run (env : Env) (cenv : Nat → Content) (rid : RootId) (pk : Nat) : F
     let r' := FNode.run env cenv rid pk r.1 rest
     (r'.1, r.2 ++ r'.2)
 
+/-- `add_shred_from_dissemination` called directly with an already validated shred (what the harness's `probe` does on
+    the node's blockstore): the coarse step on the abstraction; `add_shred` fills the vacant cache entry with
+    `shred.commitment()` iff the slot is not flagged and the type fits -/
+def FNode.addValidated (cenv : Nat → Content) (rid : RootId) (n : FNode) (v : VShred) : FNode × AddRes × List Event :=
+  let r := Blockstore.addDissem cenv n.sd (absShred rid v)
+  let idx := v.shred.header.sliceIdx
+  let fc := if n.sd.misbehaved || !v.shred.typeOk then n.fc
+    else match n.cachedEntry idx with
+      | some _ => n.fc
+      | none => (idx, v.cacheEntry) :: n.fc
+  ({ n with sd := r.1, fc := fc }, r.2.1, r.2.2)
+
 /-! ### the coarse side -/
 
 /-- **the abstraction of a raw shred**, stateless: the raw shreds of the slot that pass `try_new(_, None, leader)`,
